@@ -80,7 +80,7 @@ Proof.
 Qed.
 
 Lemma ex_sp_rows : forall i, (i < sp_rows ex_sp)%nat ->
-  INR (length (row_entries xadd xsub xmul xdiv ex_sp i)) * ux < 1.
+  INR (length (row_entries ex_sp i)) * ux < 1.
 Proof.
   intros [|[|i]] Hi; cbn in Hi; try lia; cbn; pose proof ux_small; lra.
 Qed.
